@@ -278,37 +278,39 @@ impl DataLog {
         trace!(info = "reading retain msg", filter = &filter);
         let now = Instant::now();
 
-        // discard expired retained messages
+        // discard expired retained messages (the stored message keeps the interval it was
+        // published with: its age is counted from `timestamp`)
         self.retained_publishes.retain(|_, pubdata| {
-            // Keep data if no properties exists, which implies no message expiry!
-            let Some(properties) = pubdata.properties.as_mut() else {
-                return true;
-            };
-
-            // Keep data if there is no message_expiry_interval
-            let Some(message_expiry_interval) = properties.message_expiry_interval.as_mut() else {
+            // Keep data if no properties exists or there is no message_expiry_interval,
+            // which implies no message expiry!
+            let interval = pubdata
+                .properties
+                .as_ref()
+                .and_then(|properties| properties.message_expiry_interval);
+            let Some(message_expiry_interval) = interval else {
                 return true;
             };
 
             let time_spent = (now - pubdata.timestamp).as_secs() as u32;
-
-            let is_valid = time_spent < *message_expiry_interval;
-
-            // ignore expired messages
-            if is_valid {
-                // set message_expiry_interval to (original value - time spent waiting in server)
-                // ref: https://docs.oasis-open.org/mqtt/mqtt/v5.0/os/mqtt-v5.0-os.html#_Toc3901112
-                *message_expiry_interval -= time_spent;
-            }
-
-            is_valid
+            time_spent < message_expiry_interval
         });
 
         // no need to include timestamp when returning
         self.retained_publishes
             .iter()
             .filter(|(topic, _)| matches(topic, filter))
-            .map(|(_, p)| (p.publish.clone(), p.properties.clone()))
+            .map(|(_, p)| {
+                let mut properties = p.properties.clone();
+                let interval = properties
+                    .as_mut()
+                    .and_then(|properties| properties.message_expiry_interval.as_mut());
+                if let Some(message_expiry_interval) = interval {
+                    // hand out (original value - time spent waiting in server)
+                    // ref: https://docs.oasis-open.org/mqtt/mqtt/v5.0/os/mqtt-v5.0-os.html#_Toc3901112
+                    *message_expiry_interval -= (now - p.timestamp).as_secs() as u32;
+                }
+                (p.publish.clone(), properties)
+            })
             .collect()
     }
 }
